@@ -7,7 +7,8 @@
      x/migrate/types/msg.go           ValidateBasic (same account, signature recovers to `to`)
      x/migrate/keeper/bank.go         BankMigrate.Execute (SendCoins of GetAllBalances)
      x/migrate/keeper/distr_staking.go  Validate / Execute (raw key-by-key rewrite)
-     x/migrate/keeper/gov.go + x/gov/keeper/proposal.go   queue walks up to ctx.BlockTime()
+     x/migrate/keeper/gov.go + x/gov/keeper/proposal.go   walk of the WHOLE deposit and voting queues
+                                      (govQueueEnd = year 9999; since f80617f)
    and, for the follow-up behaviour,
      cosmos-sdk x/staking keeper: BlockValidatorUpdates (DequeueAllMature…, CompleteUnbonding,
                                       CompleteRedelegation), Set/RemoveUnbondingDelegation,
@@ -147,7 +148,7 @@ Definition set_clock (s : state) (t : time) (h : Z) : state :=
   {| cfg := cfg s; now := t; height := h; accts := accts s; vals := vals s; bal := bal s;
      start := start s; stake := stake s; gov := gov s; mig := mig s |}.
 
-Definition set_dels (k : stk) x := {| dels := x; idx71 := idx71 k; ubds := ubds k; idx33 := idx33 k; ubdq := ubdq k;
+Definition set_dels (k : stk) x i := {| dels := x; idx71 := i; ubds := ubds k; idx33 := idx33 k; ubdq := ubdq k;
   reds := reds k; idx35 := idx35 k; idx36 := idx36 k; redq := redq k; unbidx := unbidx k |}.
 Definition set_ubd (k : stk) x i q := {| dels := dels k; idx71 := idx71 k; ubds := x; idx33 := i; ubdq := q;
   reds := reds k; idx35 := idx35 k; idx36 := idx36 k; redq := redq k; unbidx := unbidx k |}.
@@ -217,7 +218,9 @@ Definition mig_del_step (from to : addr) (acc : outcome state) (kv : k2 * del_re
       let k := stake s1 in
       Ok (set_stake s1 (set_dels k
            (sset k2_eqb (to, v) {| d_del := to; d_val := v; d_shares := d_shares info |}
-              (sdel k2_eqb (fst kv) (dels k)))))
+              (sdel k2_eqb (fst kv) (dels k)))
+           (* by-validator delegation index (since 048dbe3) *)
+           (sset k2_eqb (to, v) tt (sdel k2_eqb (from, v) (idx71 k)))))
     end).
 
 Definition mig_ubd_step (from to : addr) (s : state) (kv : k2 * ubd_rec) : state :=
@@ -229,7 +232,9 @@ Definition mig_ubd_step (from to : addr) (s : state) (kv : k2 * ubd_rec) : state
   let idx' := sset k2_eqb (to, v) tt (sdel k2_eqb (from, v) (idx33 k)) in
   let q' := fold_left (fun q e => mig_q_entry (fun p : k2 => fst p =? from) (ren_pair from to) q (ue_time e))
                       (u_entries u) (ubdq k) in
-  set_stake s (set_ubd k ubds' idx' q').
+  (* unbonding id index (since 048dbe3): every entry's id now names the target's record key *)
+  let ui' := fold_left (fun m e => sset Z.eqb (ue_id e) (UKubd to v) m) (u_entries u) (unbidx k) in
+  set_stake s (set_unbidx (set_ubd k ubds' idx' q') ui').
 
 Definition mig_red_step (from to : addr) (s : state) (kv : k3 * red_rec) : state :=
   let r := snd kv in
@@ -241,7 +246,8 @@ Definition mig_red_step (from to : addr) (s : state) (kv : k3 * red_rec) : state
   let i6 := sset k3_eqb (to, sd) tt (sdel k3_eqb (from, sd) (idx36 k)) in
   let q' := fold_left (fun q e => mig_q_entry (fun p : k3 => fst p =? from) (ren_trip from to) q (re_time e))
                       (r_entries r) (redq k) in
-  set_stake s (set_red k reds' i5 i6 q').
+  let ui' := fold_left (fun m e => sset Z.eqb (re_id e) (UKred to (r_src r) (r_dst r)) m) (r_entries r) (unbidx k) in
+  set_stake s (set_unbidx (set_red k reds' i5 i6 q') ui').
 
 (* Execute: three prefix iterations (over the store as it was when each iterator was opened) *)
 Definition staking_execute (from to : addr) (s : state) : outcome state :=
@@ -268,16 +274,16 @@ Definition vote_cb (g : govst) (from to : addr) (pid : Z) : outcome unit :=
   bind (dep_cb g from to pid) (fun _ =>
     if has_vote g pid from || has_vote g pid to then Err EGov else Ok tt).
 
-(* Walk with NewPrefixUntilPairRange(t): the queue entries whose end time is <= t *)
-Fixpoint walk_until (t : time) (cb : Z -> outcome unit) (q : list (time * Z)) : outcome unit :=
+(* Walk with NewPrefixUntilPairRange(govQueueEnd): every queue entry *)
+Fixpoint walk_all (cb : Z -> outcome unit) (q : list (time * Z)) : outcome unit :=
   match q with
   | [] => Ok tt
-  | (te, pid) :: r => if te <=? t then bind (cb pid) (fun _ => walk_until t cb r) else walk_until t cb r
+  | (_, pid) :: r => bind (cb pid) (fun _ => walk_all cb r)
   end.
 
 Definition gov_validate (from to : addr) (s : state) : outcome unit :=
-  bind (walk_until (now s) (dep_cb (gov s) from to) (inactiveq (gov s))) (fun _ =>
-  walk_until (now s) (vote_cb (gov s) from to) (activeq (gov s))).
+  bind (walk_all (dep_cb (gov s) from to) (inactiveq (gov s))) (fun _ =>
+  walk_all (vote_cb (gov s) from to) (activeq (gov s))).
 
 (* ---------- migrate keeper ---------- *)
 Definition has_record (s : state) (a : addr) : bool := shas Z.eqb a (recs (mig s)).
